@@ -391,13 +391,16 @@ int main(int argc, char **argv) {
     }
     // masked proc entries
     int kc = -2; { int fd = open("/proc/timer_list", O_RDONLY); if (fd >= 0) { char b8[8]; kc = (int)read(fd, b8, 8); close(fd); } else kc = -errno; }
+    // masked proc directories: nothing can be put into them (0 = a file was created there, -2 = no such directory)
+    int md = -2; { struct stat st; if (stat("/proc/acpi", &st) == 0 && S_ISDIR(st.st_mode)) { int fd = open("/proc/acpi/.probe_file", O_CREAT | O_WRONLY, 0600);
+        if (fd >= 0) { md = 0; close(fd); unlink("/proc/acpi/.probe_file"); } else md = errno; } }
     // inherited descriptors other than stdio: a directory among them is a way out of the declared tree
     n += snprintf(buf + n, sizeof buf - n, "},\"extra_fds\":[");
     { int f1 = 1; for (int fd = 3; fd < 256; fd++) { struct stat st; if (fstat(fd, &st) != 0) continue;
         int isdir = S_ISDIR(st.st_mode); int reach = 0;
         if (isdir) { int t = openat(fd, "etc/hostname", O_RDONLY); if (t >= 0) { reach = 1; close(t); } else { t = openat(fd, "tmp", O_RDONLY | O_DIRECTORY); if (t >= 0) { reach = 2; close(t); } } }
         n += snprintf(buf + n, sizeof buf - n, "%s[%d,%d,%d]", f1 ? "" : ",", fd, isdir, reach); f1 = 0; } }
-    n += snprintf(buf + n, sizeof buf - n, "],\"kcore_read\":%d}\n", kc);
+    n += snprintf(buf + n, sizeof buf - n, "],\"kcore_read\":%d,\"maskdir_write\":%d}\n", kc, md);
     write(1, buf, n);
     _exit(0);
   } else if (!strcmp(c, "secstate")) {
